@@ -646,7 +646,7 @@ register(Unit('contexts._lattice', 'concepts/contexts.py', 'LatticeMixin._lattic
 register(Unit('contexts.lattice', 'concepts/contexts.py', 'LatticeMixin.lattice', _simple_unit(_ctx_lattice_setup('lattice')),
               assumptions=['tools.lazyproperty: computed once, then cached in the instance dict (unit tools.lazyproperty.__get__)',
                            'contract of Lattice.__init__ (unit lattices.__init__)'],
-              linkage=[('type(ctx).__dict__["lattice"].fget', None)]))
+              linkage=[('concepts.contexts.LatticeMixin.__dict__["lattice"].fget', None)]))
 
 
 def _lazy_get_setup(path):
